@@ -278,7 +278,7 @@ def check_C03(ctx, tier):
     A.rule_A_SQLFAIL(ctx, ctx.repo, cache)
     A.rule_A_EQ(ctx, ctx.repo, cache)
     A.rule_A_NOCACHE(ctx, ctx.repo, cache)        # every answer comes from the store: no handle-local table that a later delete / store leaves stale
-    A.rule_A_FNAME(ctx, ctx.repo, cache)          # distinct keys keep distinct entry names (no new information loss in the key -> name map)
+    A.rule_A_FNAME(ctx, ctx.repo, cache, aliasing=True)     # distinct keys keep distinct entry names (no new information loss in the key -> name map)
     A.rule_A_RED_COPY(ctx, ctx.repo, cache, parts=('copy',))     # copy(name) yields an archive opened with the same settings
     A.rule_A_PUBFAIL(ctx, ctx.repo, cache)
     A.rule_A_VIS_STAGE(ctx, ctx.repo, cache)
